@@ -385,7 +385,7 @@ func sysAtomChars(scope int, codes bool) []string {
 }
 
 // boundary code points of the UTF-8 encoding lengths, surrogates, limits
-var c16Codes = []int64{0, 1, 0x41, 0x61, 0x7f, 0x80, 0xe9, 0x7ff, 0x800, 0x20ac, 0xd7ff, 0xd800, 0xdfff, 0xe000, 0xfffc, 0xfffe, 0xffff,
+var c16Codes = []int64{0, 1, 0x41, 0x61, 0x7f, 0x80, 0xe9, 0x7ff, 0x800, 0x20ac, 0xd7ff, 0xd800, 0xdfff, 0xe000, 0xfffc, 0xfffd, 0xfffe, 0xffff,
 	0x10000, 0x1f600, 0x10ffff, 0x110000, -1, 4294967393, -4294967199, c16MaxInt, c16MinInt}
 
 func sysCharCode() []string {
@@ -647,7 +647,7 @@ func c16Systematic(scope int) []string {
 // ---------------------------------------------------------------------------------------------
 
 // code points around the UTF-8 length boundaries, combining marks, the alphabet
-var c16Runes = []rune{'a', 'b', 'c', 'z', 'A', ' ', '_', '0', '\'', '\\', 0x7f, 0x80, 0xe9, 0x301, 0x7ff, 0x800, 0x20ac, 0xd7ff, 0xe000, 0xfffc,
+var c16Runes = []rune{'a', 'b', 'c', 'z', 'A', ' ', '_', '0', '\'', '\\', 0x7f, 0x80, 0xe9, 0x301, 0x7ff, 0x800, 0x20ac, 0xd7ff, 0xe000, 0xfffc, 0xfffd,
 	0xffff, 0x10000, 0x1f600, 0x10ffff}
 
 func randText(r *rand.Rand, min, max int) []string {
